@@ -2,6 +2,7 @@ package gkit
 
 import (
 	"context"
+	"fmt"
 	"sort"
 	"sync"
 	"sync/atomic"
@@ -184,11 +185,19 @@ func stateHandlerOpts[I, O any](n *NodeSpec, tag string) []compose.GraphAddNodeO
 	case "v":
 		opts = append(opts, compose.WithStatePreHandler(func(ctx context.Context, in I, st *GState) (I, error) {
 			critical(ctx, st, "pre:"+tag)
+			if n.Fault == "preherr" {
+				// the pre-handler itself fails: the node fails before its body starts
+				return in, fmt.Errorf("wrapped: %w", &InjectedError{Node: tag, EOF: n.FaultEOF})
+			}
 			return castTo[I](PreValue(any(in))), nil
 		}))
 	case "s":
 		opts = append(opts, compose.WithStreamStatePreHandler(func(ctx context.Context, in *schema.StreamReader[I], st *GState) (*schema.StreamReader[I], error) {
 			critical(ctx, st, "pre:"+tag)
+			if n.Fault == "preherr" {
+				in.Close()
+				return nil, fmt.Errorf("wrapped: %w", &InjectedError{Node: tag, EOF: n.FaultEOF})
+			}
 			return streamMap[I](in, PreValue), nil
 		}))
 	}
